@@ -123,6 +123,10 @@ def run(ctx):
                 got = None
                 if len(d) != len(lay):
                     bad = 'pyCraft declares %d fields, the published layout has %d' % (len(d), len(lay))
+                elif sorted(n for n, _ in d) == sorted(n for n, _ in lay) and [n for n, _ in d] != [n for n, _ in lay]:
+                    # same field names as the reference, different order: a swap, not a rename
+                    bad = 'fields are in a different order than published: %r vs %r' % (
+                        [n for n, _ in d], [n for n, _ in lay])
                 else:
                     p = cls(cx)
                     for (n, _), x in zip(d, vals):
@@ -163,6 +167,38 @@ def run(ctx):
                 if bad:
                     ctx.violation('release %d %s: %s' % (v, name, bad), {'release': v, 'packet': name, 'values': repr(vals)[:200]},
                                   key={'release': v, 'packet': name})
+    # ONE context object walked through the releases (what Connection does with its context on
+    # reconnects / negotiation): layouts must follow the context's CURRENT version
+    shared = ConnectionContext(protocol_version=rp.RELEASES[0])
+    walk = [338, 340, 47, 107, 754, 755, 340, 335, 757, 47] + [rng.choice(rp.RELEASES) for _ in range(30)]
+    for v in walk:
+        if v in missing_rel:
+            continue
+        shared.protocol_version = v
+        for name in ('keep_alive_sb', 'keep_alive_cb', 'position_look_cb', 'login_success', 'chat_cb'):
+            lay = rp.layout(name, v)
+            tab, clsname = rp.PYCRAFT_NAME[name]
+            cls = next((c for c in tabs[tab].get_packets(shared) if c.__name__ == clsname), None)
+            if lay is None or cls is None:
+                continue
+            d = [(n, t) for f in cls.get_definition(shared) for n, t in f.items()]
+            vals = [gen(rng, t, 3 + i) for i, (_, t) in enumerate(lay)]
+            ref_payload = rc.varint(rp.packet_id(name, v)) + b''.join(ref_enc(t, x) for (_, t), x in zip(lay, vals))
+            p = cls(shared)
+            for (n, _), x in zip(d, vals):
+                setattr(p, n, x)
+            sock = io.BytesIO()
+            sock.send = sock.write
+            ctx.case(('walk', v, name))
+            try:
+                p.write(sock)
+                got = sock.getvalue()
+            except Exception as e:
+                got = repr(e).encode()
+            if got != rc.varint(len(ref_payload)) + ref_payload:
+                ctx.violation('release %d %s on a context that was used for other versions before: bytes %s, published %s'
+                              % (v, name, got.hex()[:60], (rc.varint(len(ref_payload)) + ref_payload).hex()[:60]),
+                              {'release': v, 'packet': name}, key={'release': v, 'packet': name, 'kind': 'reused-context'})
     # a packet decoded from published bytes and written again must give the same bytes (what the keep-alive
     # echo relies on), in particular for 5-byte VarInts with the top bit set ("negative" ids)
     for v in rp.RELEASES:
